@@ -86,6 +86,7 @@ def run_all(repo: str, props: list[str] | None = None) -> dict:
     for pid in props or implemented_properties():
         mod = importlib.import_module(f"hmslint.rules.{pid.lower()}")
         viol, und, keys = set(), [], []
+        known_keys = {k["key"] for k in load_known() if k.get("property") == pid and k.get("status") == "known"}
         for rule_id, fn, min_subjects in mod.RULES:
             try:
                 got = list(fn(ctx))
@@ -101,6 +102,8 @@ def run_all(repo: str, props: list[str] | None = None) -> dict:
             if len(got) < min_subjects:
                 und.append(f"{rule_id}: {len(got)} < {min_subjects} subjects")
             for o in got:
+                if o.status == VIOLATION and o.key in known_keys:
+                    continue  # a listed known finding: reported as KNOWN-FINDING by the check, not a new violation
                 if o.status == VIOLATION:
                     viol.add(o.rule)
                     keys.append(o.key)
